@@ -20,6 +20,25 @@ CLAIMS = {
              "picky; proof tracking on/off; incremental histories) is replayed through the proved executable step function; "
              "a clause that is not RUP at that moment is rejected with the script as replay.",
         design_ref="5 C12, 4 Prop/Cdcl"),
+    "C08": dict(
+        technique="Lean 4 proof (soundness of the SMT-level checker + labelled interpolation systems + Farkas interpolants) tied by certified re-decision of every printed interpolant",
+        text="Theorems: Smt.unsat_sound (a trace accepted by the executable checker makes the traced assertions unsatisfiable), "
+             "C08_certified_split (two such refutations are Craig's conditions), the labelled-interpolation-system theorem (for "
+             "every refutation and every labelling, McMillan/Pudlak/McMillan'/proof-sensitive included, the root partial "
+             "interpolant is implied by A, inconsistent with B, and over shared variables) and the Farkas / dual Farkas "
+             "interpolant theorems. Tie: for generated incremental scripts over QF_UF/QF_LRA/QF_LIA with named assertions, all "
+             "interpolation algorithms, strength factors, proof reduction and simplification levels, every printed interpolant of "
+             "random groupings is re-decided: A+not I and I+B must be refuted by a fresh run whose trace the Lean machine "
+             "accepts (LA and EUF lemmas kernel-checked), and its symbols must be shared; a rejected legal request is a "
+             "violation. Partial: the algorithm-level theorems are about the model of the interpolation systems and are not "
+             "mechanically tied to InterpolationContext; the per-run tie is the certified re-decision.",
+        design_ref="5 C08"),
+    "C09": dict(
+        technique="Lean 4 proof (checker soundness; step condition from certified refutations) tied by certified re-decision of every printed interpolant sequence",
+        text="As C08 for requests with 3-5 groups: every member is re-decided as a Craig interpolant of its cumulative split and "
+             "I_j + G_(j+1) + not I_(j+1) must be refuted by a run the Lean machine accepts (C09_path_from_splits). Partial: no "
+             "algorithm-level theorem for the path property of labelled interpolation systems is proved.",
+        design_ref="5 C09"),
     "C13": dict(
         technique="Lean 4 proof (preprocessing rewrites are equivalences / conservative extensions for every term and interpretation) tied by per-check comparison of assertions and engine roots with Lean-validated models",
         text="Theorems: substitution by equal-valued targets keeps every value; variable elimination by a definition is a "
